@@ -440,6 +440,8 @@ RULES['C18'] = 'rapidproto.MessageGenerator draws (rapid Example with seeded see
 
 RULES['C08'] = 'operation histories (30-60 steps, seeded) over Has/Get/Set/Clear/Mutable/NewField/WhichOneof/Range/GetUnknown/SetUnknown/IsValid and every List and Map method, with retained view handles (lists, maps, nested messages, detached NewField values, read-only empty views) driven in lock-step on fast reflection, protobuf-go table-driven reflection over a second struct of the same type, and dynamicpb; after every step return values, validity flags, panics and the full message state (Go struct read with package reflect vs dynamicpb state, and the generated Range view vs its own struct) are compared; a third of the histories start from a populated message; non-trivial = history has >=1 step; distinct by type + operation sequence'
 
+RULES['C09'] = 'EXHAUSTIVE over subject types x fields x listed reads: for (*T)(nil), Type().Zero(), new(T) and the read-only values returned by Get for every unpopulated message/list/map field (chains to depth 3): Has, Get (vs dynamicpb defaults), Range, WhichOneof, GetUnknown, IsValid, Size, Marshal, MarshalAppend, Equal (both orders), Clone, Merge-from, protojson/prototext (vs reference output), CheckInitialized; writes (Set, Mutable, SetUnknown, List.Append, Map.Set) must panic; structs holding nil list elements, nil map values and oneof wrappers holding nil are compared with protobuf-go reflection over an identical struct on 9 read-only entry points; distinct by type + subject kind'
+
 ASSUME = [
     'google.golang.org/protobuf v1.34.0 dynamicpb + proto (reflection codec) is the reference; it and the harness spec codec must agree before a case is decided',
     'the plain-Go-reflection struct reader (struct tags -> field numbers) reads generated structs correctly',
@@ -447,7 +449,7 @@ ASSUME = [
 ]
 
 
-FLOORS = {'C08': (500, 300), 'C15': (1000000, 100000), 'C16': (500, 200), 'C17': (10000, 5000), 'C18': (300, 200), 'C07': (500, 200), 'C01': (500, 200), 'C02': (500, 200), 'C04': (500, 200), 'C05': (100, 30), 'C03': (500, 200), 'C14': (500, 100)}
+FLOORS = {'C09': (300, 300), 'C08': (500, 300), 'C15': (1000000, 100000), 'C16': (500, 200), 'C17': (10000, 5000), 'C18': (300, 200), 'C07': (500, 200), 'C01': (500, 200), 'C02': (500, 200), 'C04': (500, 200), 'C05': (100, 30), 'C03': (500, 200), 'C14': (500, 100)}
 
 
 def check_engine(prop, tier, seed, repo, keep):
@@ -624,7 +626,7 @@ CHECKS = {
     'C01': check_engine, 'C02': check_engine, 'C04': check_engine, 'C05': check_engine,
     'C03': check_engine, 'C14': check_engine,
     'C06': check_total, 'C07': check_engine,
-    'C08': check_engine, 'C15': check_engine, 'C16': check_engine, 'C17': check_engine, 'C18': check_isolated_engine,
+    'C08': check_engine, 'C09': check_engine, 'C15': check_engine, 'C16': check_engine, 'C17': check_engine, 'C18': check_isolated_engine,
 }
 
 
